@@ -55,7 +55,7 @@ T2 = {
     "panic|%snew|panic|1" % SG:
         (r"lf0 static vector must be 1", "voice-format fact: the log-F0 stream has vector length 1"),
     "divzero|vocoder::excitation::RingBuffer::<T>::get_mut_with_offset|Rem|0":
-        (r"len\(self\.buffer\)", "called only from voiced_frame/unvoiced_frame, which Excitation::get reaches only under ring_buffer.len() > 0"),
+        (r"len\(self\.buffer\)", "called only from voiced_frame/unvoiced_frame, which Excitation::get reaches only under ring_buffer.len() > 0", [], [r"^true: Gt\(vocoder::excitation::RingBuffer::<T>::len\(self\.ring_buffer\), 0\)$"]),
     "index|vocoder::generalized::Generalized::gnorm|Vec::index_mut|3":
         (r"RangeFrom\{start: 1\}", "coefficient vectors have nmcp >= 1 elements"),
     "index|vocoder::generalized::Generalized::gnorm|Vec::index|3":
